@@ -210,6 +210,10 @@ def run(cx):
                 sig = None
                 for loc, t in b.calls("Vec::extend_from_slice"):
                     e = b.operand_expr(t["args"][1])
+                    if e[0] == "call" and e[1] == "u32::to_be_bytes" and len(e[2]) == 1:
+                        # crc.to_be_bytes() is the four bytes of crc, most significant first
+                        x_ = e[2][0]
+                        e = ("agg", "array", tuple(("cast", "u8", x_ if sh_ == 0 else ("bin", "Shr", x_, ("const", str(sh_), "i32", None))) for sh_ in (24, 16, 8, 0)))
                     if e[0] == "agg" and e[1] == "array" and len(e[2]) == 4:
                         buf = show(b.operand_expr(t["args"][0]))
                         sig = tuple(re.sub(re.escape(buf), "BUF", show(x)) for x in e[2])
